@@ -123,6 +123,26 @@ class Interp:
                         pass
             except _Break:
                 pass
+        elif k == 'while':
+            n = 0
+            try:
+                while True:
+                    if s.get('cv'):
+                        env[s['cv']['id']] = self.expr(s['cv']['init'], env)
+                        c = env[s['cv']['id']]
+                    else:
+                        c = self.expr(s['c'], env)
+                    if not self.truth(c):
+                        break
+                    n += 1
+                    if n > 64:
+                        raise Unsupported('loop bound exceeded')
+                    try:
+                        self.stmt(s['body'], env)
+                    except _Continue:
+                        pass
+            except _Break:
+                pass
         elif k == 'for':
             self.stmt(s.get('init'), env)
             n = 0
@@ -186,6 +206,8 @@ class Interp:
             m = self.models.get('ref:' + e['name'])
             if m is not None:
                 return m(self, e, env)
+            if e['name'] in ('std::nullopt', 'nullopt'):
+                return None
             raise Unsupported('unbound variable ' + e['name'])
         if k == 'member':
             b = self.expr(e['base'], env)
@@ -247,6 +269,17 @@ class Interp:
                 return v
             if op in ('*', '->') and len(e['args']) == 1:
                 return self.expr(e['args'][0], env)
+            if op == '()' and e['args'] and SX.is_node(e['args'][0]) and e['args'][0].get('k') == 'ref':
+                lam = self.closure_of(e['args'][0], env)
+                if lam is not None:
+                    lenv = dict(env)
+                    for prm, a in zip(lam['params'], e['args'][1:]):
+                        lenv[prm['id']] = self.expr(a, env)
+                    try:
+                        self.stmt(lam['body'], lenv)
+                    except Ret as r:
+                        return r.v
+                    return None
             if op in ('++', '--') and e['args']:
                 cur = self.expr(e['args'][0], env)
                 new = (cur or 0) + (1 if op == '++' else -1)
@@ -305,7 +338,19 @@ class Interp:
             raise Unsupported('initlist ' + e['type'])
         if k == 'zeroinit':
             return 0
+        if k == 'lambda':
+            return e
         raise Unsupported('expression ' + k + ': ' + SX.show(e)[:60])
+
+    def closure_of(self, ref, env):
+        v = env.get(ref.get('id'))
+        if isinstance(v, dict) and v.get('k') == 'lambda':
+            return v
+        if ref.get('global'):
+            for (nm, fl, ln), gl in self.p.facts.globals.items():
+                if nm == ref['name'] and SX.is_node(gl.get('init')) and gl['init'].get('k') == 'lambda':
+                    return gl['init']
+        return None
 
     def index(self, b, i, what):
         if isinstance(b, dict) and not isinstance(b, Obj):
@@ -325,6 +370,16 @@ class Interp:
     def container_call(self, e, name, env):
         o = self.expr(e.get('obj'), env)
         a = [self.expr(x, env) for x in SX.real_args(e)]
+        if isinstance(o, str):
+            if name == 'rfind' and a and isinstance(a[0], str):
+                return o.rfind(a[0]) if o.rfind(a[0]) >= 0 else 2 ** 64 - 1
+            if name == 'find' and a and isinstance(a[0], str):
+                return o.find(a[0]) if o.find(a[0]) >= 0 else 2 ** 64 - 1
+            if name == 'substr':
+                st = a[0] if a else 0
+                return o[st:st + a[1]] if len(a) > 1 else o[st:]
+            if name in ('length',):
+                return len(o)
         if isinstance(o, (list, str, dict)) and not isinstance(o, Obj):
             if name == 'size':
                 return len(o)
